@@ -3,11 +3,12 @@ import Operon.Model.QuorumTab
 /-!
 # C06 - the evaluated decision tables (`Operon.Gen.QuorumTables`) against the model
 
-* `countTable_fast_ok` (`decide +kernel`): every row of the count table equals the model's outcome digits, computed
-  in a kernel-cheap form (natural-number cross-multiplication on forced literals); `fastRow_sound` / `countRow_sound`
-  prove that the cheap form IS `countOutcome`, and `outcome_eq_count` that for the counting strategies the outcome of
-  `runVote` on ANY electorate is `countOutcome` of its (permit, block, abstain, defer) profile.
-* `classTable_ok`: the classification table is reproduced by `toVote`.
+* `CountTableOk`: every row of the count table equals the model's outcome digits, computed in a kernel-cheap form
+  (natural-number cross-multiplication on forced literals); it is established by `decide +kernel` inside the property
+  theorem.  `fastRow_sound` / `countRow_sound` prove that the cheap form IS `countOutcome`, and `outcome_eq_count` that
+  for the counting strategies the outcome of `runVote` on ANY electorate is `countOutcome` of its (permit, block,
+  abstain, defer) profile.
+* `ClassTableOk`: the classification table is reproduced by `toVote`.
 * facts about `profilesUpTo`, `plainVoters`, `classifyAction` used by the property theorems.
 -/
 namespace Operon.Quorum
@@ -107,8 +108,9 @@ def countRowOk (row : (Nat × Option Rat × Nat) × Nat) : Bool :=
   | some cfg => decide (0 ≤ cfg.custom.getD 0) && fastRow cfg row.2
   | none => false
 
-/-- every row of the evaluated count table is reproduced by the (kernel-cheap form of the) model -/
-theorem countTable_fast_ok : countTable.all countRowOk = true := by decide +kernel
+/-- "every row of the evaluated count table is reproduced by the (kernel-cheap form of the) model": established with
+    `decide +kernel` inside `c06_count_tables_agree` (so that a table that no longer agrees breaks that theorem only) -/
+def CountTableOk : Prop := countTable.all countRowOk = true
 
 /-! ### the kernel-cheap forms are the model -/
 
@@ -300,10 +302,10 @@ theorem zip_map_self {α β : Type} (l : List α) (f : α → β) : l.zip (l.map
   | cons x xs ih => simp [ih]
 
 /-- what `countTable_fast_ok` says about one row, in terms of the model itself -/
-theorem countRow_sound (row : (Nat × Option Rat × Nat) × Nat) (hrow : row ∈ countTable) :
+theorem countRow_sound (hok : CountTableOk) (row : (Nat × Option Rat × Nat) × Nat) (hrow : row ∈ countTable) :
     ∃ cfg, cfgOfCode row.1 = some cfg ∧ NonNegThreshold cfg ∧ cfg.strategy.counting = true ∧
       decodeCount row.2 = (profilesUpTo countMaxVoters).map (fun pr => (pr, countOutcome cfg pr)) := by
-  have h := List.all_eq_true.mp countTable_fast_ok row hrow
+  have h := List.all_eq_true.mp hok row hrow
   unfold countRowOk at h
   cases hc : cfgOfCode row.1 with
   | none => simp [hc] at h
@@ -317,11 +319,9 @@ theorem countRow_sound (row : (Nat × Option Rat × Nat) × Nat) (hrow : row ∈
 
 /-! ### the classification table -/
 
-set_option maxRecDepth 100000 in
-/-- every row of the evaluated classification table is reproduced by `toVote` on `classifyAction` / `confOfPayload` -/
-theorem classTable_ok :
-    classTable.all (fun row => decide (observedVote (toVote (rowVoter row.1)) = rowObserved row.2)) = true := by
-  decide +kernel
+/-- "every row of the evaluated classification table is reproduced by `toVote` on `classifyAction` / `confOfPayload`" -/
+def ClassTableOk : Prop :=
+  classTable.all (fun row => decide (observedVote (toVote (rowVoter row.1)) = rowObserved row.2)) = true
 
 theorem classifyAction_spec (s : List Nat) :
     (classifyAction s = .permit ↔ s = permitCps) ∧ (classifyAction s = .execute ↔ s = executeCps) ∧
